@@ -112,6 +112,31 @@ def c04_kill():
         return bad
     finally: g.terminate(2)
 
+def c04_kill_socket():
+    """the same loss on a socket gateway (its host process is killed): the first send afterwards must already be refused"""
+    g = execnet.Group()
+    try:
+        host = g.makegateway("popen//id=sockhost")
+        gw = g.makegateway("socket//installvia=sockhost//id=sock1")
+        pid = gw.remote_exec("import os; channel.send(os.getpid())").receive(T)
+        ch = gw.remote_exec("channel.send(1)\nchannel.receive()")
+        ch.receive(T)
+        os.kill(pid, signal.SIGKILL)
+        bad = []
+        try: ch.receive(T); bad.append("receive returned an item after the loss")
+        except EOFError: pass
+        except Exception as e: bad.append(f"receive raised {type(e).__name__} instead of EOFError")
+        t0 = time.time()
+        while gw.hasreceiver() and time.time() - t0 < 3: time.sleep(0.02)      # the receiver's epilogue (sweep, half closes) has run
+        time.sleep(0.1)
+        try: ch.send(1); bad.append("socket gateway: the first send after the connection loss succeeded silently")
+        except OSError: pass
+        except Exception as e: bad.append(f"send raised {type(e).__name__}")
+        try: gw.newchannel(); bad.append("socket gateway: newchannel did not raise OSError after the loss")
+        except OSError: pass
+        return bad
+    finally: g.terminate(2)
+
 def c07_errors():
     g, gw = gwpair()
     try:
@@ -207,6 +232,32 @@ def c10_dropped_endmarker():
             bad.append(f"dropped-callback-endmarker: after the remote execution ended the callback saw {got!r} - no endmarker (the peer, made send-only by CHANNEL_LAST_MESSAGE, sends no CHANNEL_CLOSE)")
         elif cid in gw._channelfactory._callbacks:
             bad.append("dropped-callback-endmarker: callback table still lists the finished conversation")
+        return bad
+    finally: g.terminate(2)
+
+def c10_dropped_endmarker_on_loss():
+    """the same callback channel (object dropped) when the CONNECTION is lost while the remote side is still sending: items, then the endmarker, exactly once"""
+    import gc, os, signal
+    g, gw = gwpair()
+    try:
+        got = []
+        ch = gw.remote_exec("import os, time\nchannel.send(os.getpid())\nfor i in range(3): channel.send(i)\ntime.sleep(30)")
+        pid = ch.receive(T)
+        ch.setcallback(got.append, endmarker="END")
+        cid = ch.id
+        del ch
+        gc.collect()
+        t0 = time.time()
+        while len(got) < 3 and time.time() - t0 < 3: time.sleep(0.02)
+        os.kill(pid, signal.SIGKILL)
+        t0 = time.time()
+        while (not got or got[-1] != "END") and time.time() - t0 < 4: time.sleep(0.02)
+        time.sleep(0.2)
+        bad = []
+        if got != [0, 1, 2, "END"]:
+            bad.append(f"dropped-callback-endmarker-on-connection-loss: the callback saw {got!r}, expected [0, 1, 2, 'END']")
+        elif cid in gw._channelfactory._callbacks:
+            bad.append("dropped-callback-endmarker-on-connection-loss: callback table still lists the conversation")
         return bad
     finally: g.terminate(2)
 
